@@ -665,6 +665,48 @@ func c01Scenario(c *mon.Ctx, r *rand.Rand, lg *world.Log, key, evil *world.Key, 
 	for (n >> uint(h*(topL+1))) > 0 {
 		topL++
 	}
+	// ---- a wholly self-consistent forged log (record, every tile, head) whose head is not signed by
+	// the database key: the signature block takes every shape that carries no valid signature ------
+	{
+		ftree := world.FormatTreeText(int64(n), [32]byte(fl.Root(n)))
+		imp := world.NewKey(key.Name, 0x5a)
+		evil2 := world.NewKey("other.example/log", 11)
+		wrongText := key.SigLine(world.FormatTreeText(int64(n)+1, [32]byte(fl.Root(n)))) // the genuine key's signature of a different text
+		shapes := []struct {
+			name string
+			sigs string
+		}{
+			{"unknown-key", evil.SigLine(ftree)},
+			{"unknown-key-line-twice", evil.SigLine(ftree) + evil.SigLine(ftree)},
+			{"unknown-key-line-thrice", evil.SigLine(ftree) + evil.SigLine(ftree) + evil.SigLine(ftree)},
+			{"two-unknown-keys", evil.SigLine(ftree) + evil2.SigLine(ftree)},
+			{"same-name-other-key", imp.SigLine(ftree)},
+			{"same-name-other-key-twice", imp.SigLine(ftree) + imp.SigLine(ftree)},
+			{"genuine-key-signature-of-other-text", wrongText},
+			{"genuine-key-signature-of-other-text+unknown-twice", wrongText + evil.SigLine(ftree) + evil.SigLine(ftree)},
+			{"unknown-twice+same-name-other-key", evil.SigLine(ftree) + evil.SigLine(ftree) + imp.SigLine(ftree)},
+		}
+		for _, sh := range shapes {
+			fhead := []byte(ftree + "\n" + sh.sigs)
+			runFaulted("forged-log:"+sh.name, func(w *world.World) {
+				w.Remote = func(cl int, p string) ([]byte, error) {
+					switch {
+					case p == "/lookup/"+mod.Path+"@"+mod.Vers:
+						return append([]byte(fmt.Sprintf("%d\n%s\n", rec, forgedText)), fhead...), nil
+					case p == "/latest":
+						return fhead, nil
+					}
+					if t, ok := refmerkle.ParseTilePath(strings.TrimPrefix(p, "/")); ok && refmerkle.TileExists(t, int64(n)) {
+						if t.L < 0 {
+							return nil, fmt.Errorf("404")
+						}
+						return fl.TileBytes(t), nil
+					}
+					return nil, fmt.Errorf("404")
+				}
+			}, false)
+		}
+	}
 	for k := 1; k <= topL+1; k++ {
 		k := k
 		runFaulted(fmt.Sprintf("forged-record+tiles:k=%d", min(k, 4)), func(w *world.World) {
